@@ -163,6 +163,7 @@ func TestC08(t *testing.T) {
 			if rng.Bool() {
 				names = append(names, "not_there_at_all.proto")
 			}
+			planted++ // the compilation fails in any case (a failure that is not shown to the reporter)
 			r.Class("shape:unresolvable-file-among-the-requested")
 		case 7:
 			// an import cycle between two files (reported through the root handler) next to other reported errors
